@@ -193,13 +193,22 @@ Proof.
   - intros H. right. apply IH. exact H.
 Qed.
 
+(* `noi fx l`: the repaired cloning of import sources is on, or there is no import source among l.  Under the pinned
+   flags the import source of the original is handed to the clone, so freshness only holds for import-free entities. *)
+Definition noi (fx : flags) (l : list oid) : Prop := fx_isrc fx = true \/ l = [].
+
+Lemma noi_app fx a b : noi fx (a ++ b) -> noi fx a /\ noi fx b.
+Proof. intros [H|H]; [split; left; exact H|]. apply app_eq_nil in H. destruct H as [-> ->]. split; right; reflexivity. Qed.
+Lemma noi_fixed fx l : fx_isrc fx = true -> noi fx l.
+Proof. intros H. left. exact H. Qed.
+
 Lemma clone_imp_fresh fx lo s imp imp' s' :
-  fx_isrc fx = true -> st_ok lo s -> lo <= nx s -> clone_imp fx s imp = (imp', s') ->
+  noi fx (isrc_oids_opt imp) -> st_ok lo s -> lo <= nx s -> clone_imp fx s imp = (imp', s') ->
   st_ok lo s' /\ nx s <= nx s' /\ rng lo (nx s') (isrc_oids_opt imp').
 Proof.
   intros Hfx Hok Hlo. unfold clone_imp. destruct imp as [i|].
   2:{ intros H. injection H as <- <-. repeat split; [exact Hok | lia | apply rng_nil]. }
-  rewrite Hfx. destruct (lookup (is_oid i) (imap s)) as [i'|] eqn:El.
+  destruct Hfx as [Hfx|Hfx]; [|discriminate]. rewrite Hfx. destruct (lookup (is_oid i) (imap s)) as [i'|] eqn:El.
   - intros H. injection H as <- <-. repeat split; [exact Hok | lia|]. cbn. apply rng_cons. split; [|apply rng_nil].
     apply lookup_in in El. unfold st_ok in Hok. rewrite Forall_forall in Hok. apply (Hok _ El).
   - cbn. intros H. injection H as <- <-. cbn. repeat split.
@@ -209,7 +218,7 @@ Proof.
 Qed.
 
 Lemma clone_units_st_fresh fx lo s u u' s' :
-  fx_isrc fx = true -> st_ok lo s -> lo <= nx s -> clone_units_st fx s u = (u', s') ->
+  noi fx (units_isrcs u) -> st_ok lo s -> lo <= nx s -> clone_units_st fx s u = (u', s') ->
   st_ok lo s' /\ nx s < nx s' /\ rng lo (nx s') (units_oids u') /\ u_parent u' = None.
 Proof.
   intros Hfx Hok Hlo. unfold clone_units_st.
@@ -223,17 +232,17 @@ Lemma st_ok_st0 lo n : st_ok lo (st0 n).
 Proof. unfold st_ok, st0. cbn. constructor. Qed.
 
 Lemma clone_units_fresh fx n u u' n' :
-  fx_isrc fx = true -> clone_units fx n u = (u', n') -> n < n' /\ rng n n' (units_oids u') /\ u_parent u' = None.
+  noi fx (units_isrcs u) -> clone_units fx n u = (u', n') -> n < n' /\ rng n n' (units_oids u') /\ u_parent u' = None.
 Proof.
   intros Hfx. unfold clone_units. destruct (clone_units_st fx (st0 n) u) as [u1 s1] eqn:E. intros H. injection H as <- <-.
   apply (clone_units_st_fresh fx n) in E; [|exact Hfx | apply st_ok_st0 | cbn; lia]. cbn in E. tauto.
 Qed.
 
 Lemma clone_variable_fresh fx n v v' n' :
-  fx_isrc fx = true -> clone_variable fx n v = (v', n') ->
+  noi fx (var_isrcs v) -> clone_variable fx n v = (v', n') ->
   n < n' /\ rng n n' (var_oids v') /\ v_parent v' = None /\ v_oid v' = n /\ v_eqs v' = [].
 Proof.
-  intros Hfx. unfold clone_variable. destruct (v_units v) as [u|].
+  intros Hfx. unfold clone_variable, var_isrcs in *. destruct (v_units v) as [u|].
   - destruct (clone_units fx (S n) u) as [u' n1] eqn:E. intros H. injection H as <- <-.
     apply clone_units_fresh in E; [|exact Hfx]. destruct E as (Hlt & Hr & _).
     repeat split; try reflexivity; [lia|]. unfold var_oids. cbn. apply rng_cons. split; [lia|]. eapply rng_mono2; [| |exact Hr]; lia.
@@ -241,7 +250,7 @@ Proof.
 Qed.
 
 Lemma clone_opt_variable_fresh fx n v v' n' :
-  fx_isrc fx = true -> clone_opt_variable fx n v = (v', n') -> n <= n' /\ rng n n' (ovar_oids v').
+  noi fx (ovar_isrcs v) -> clone_opt_variable fx n v = (v', n') -> n <= n' /\ rng n n' (ovar_oids v').
 Proof.
   intros Hfx. unfold clone_opt_variable. destruct v as [v|].
   - destruct (clone_variable fx n v) as [w n1] eqn:E. intros H. injection H as <- <-.
@@ -250,13 +259,14 @@ Proof.
 Qed.
 
 Lemma clone_reset_fresh fx n r r' n' :
-  fx_isrc fx = true -> clone_reset fx n r = (r', n') ->
+  noi fx (reset_isrcs r) -> clone_reset fx n r = (r', n') ->
   n < n' /\ rng n n' (reset_oids r') /\ r_parent r' = None /\ r_oid r' = n.
 Proof.
   intros Hfx. unfold clone_reset.
   destruct (clone_opt_variable fx (S n) (r_var r)) as [v' n1] eqn:E1.
   destruct (clone_opt_variable fx n1 (r_test r)) as [t' n2] eqn:E2. intros H. injection H as <- <-.
-  apply clone_opt_variable_fresh in E1; [|exact Hfx]. apply clone_opt_variable_fresh in E2; [|exact Hfx].
+  apply noi_app in Hfx. destruct Hfx as [Hf1 Hf2].
+  apply clone_opt_variable_fresh in E1; [|exact Hf1]. apply clone_opt_variable_fresh in E2; [|exact Hf2].
   destruct E1 as [L1 R1]. destruct E2 as [L2 R2]. repeat split; [lia|].
   unfold reset_oids. cbn. apply rng_cons. split; [lia|]. apply rng_app. split; eapply rng_mono2; [| |exact R1| | |exact R2]; lia.
 Qed.
@@ -265,14 +275,15 @@ Lemma var_oids_set_parent p v : var_oids (v_set_parent p v) = var_oids v.
 Proof. reflexivity. Qed.
 
 Lemma clone_variables_fresh fx owner l : forall n l' n',
-  fx_isrc fx = true -> clone_variables fx n owner l = (l', n') ->
+  noi fx (flat_map var_isrcs l) -> clone_variables fx n owner l = (l', n') ->
   n <= n' /\ rng n n' (flat_map var_oids l') /\ List.length l' = List.length l /\
   Forall (fun w => v_parent w = Some owner /\ v_eqs w = []) l'.
 Proof.
   induction l as [|v r IH]; intros n l' n' Hfx; cbn.
   - intros H. injection H as <- <-. repeat split; [lia | apply rng_nil | constructor].
   - destruct (clone_variable fx n v) as [v' n1] eqn:E1. destruct (clone_variables fx n1 owner r) as [r' n2] eqn:E2.
-    intros H. injection H as <- <-. apply clone_variable_fresh in E1; [|exact Hfx]. apply IH in E2; [|exact Hfx].
+    intros H. injection H as <- <-. cbn in Hfx. apply noi_app in Hfx. destruct Hfx as [Hf1 Hf2].
+    apply clone_variable_fresh in E1; [|exact Hf1]. apply IH in E2; [|exact Hf2].
     destruct E1 as (L1 & R1 & _ & _ & Q1). destruct E2 as (L2 & R2 & Len & F2). repeat split; [lia | | cbn; lia |].
     + cbn [flat_map]. rewrite var_oids_set_parent. apply rng_app. split; eapply rng_mono2; [| |exact R1| | |exact R2]; lia.
     + constructor; [cbn; split; [reflexivity | exact Q1] | exact F2].
@@ -287,7 +298,7 @@ Proof.
 Qed.
 
 Lemma clone_resets_fresh fx owner ovars cvars lo l : forall n l' n',
-  fx_isrc fx = true -> lo <= n -> (forall w, In w cvars -> rng lo n (var_oids w)) ->
+  noi fx (flat_map reset_isrcs l) -> lo <= n -> (forall w, In w cvars -> rng lo n (var_oids w)) ->
   clone_resets fx n owner ovars cvars l = (l', n') ->
   n <= n' /\ rng lo n' (flat_map reset_oids l') /\ Forall (fun r => r_parent r = Some owner) l'.
 Proof.
@@ -295,8 +306,9 @@ Proof.
   - intros H. injection H as <- <-. repeat split; [lia | apply rng_nil | constructor].
   - destruct (clone_reset fx n r) as [r' n1] eqn:E1.
     destruct (clone_resets fx n1 owner ovars cvars rest) as [rest' n2] eqn:E2. intros H. injection H as <- <-.
-    apply clone_reset_fresh in E1; [|exact Hfx]. destruct E1 as (L1 & R1 & _ & O1).
-    apply IH in E2; [|exact Hfx | lia | intros w Hw; eapply rng_mono; [|apply Hc; exact Hw]; lia].
+    cbn in Hfx. apply noi_app in Hfx. destruct Hfx as [Hf1 Hf2].
+    apply clone_reset_fresh in E1; [|exact Hf1]. destruct E1 as (L1 & R1 & _ & O1).
+    apply IH in E2; [|exact Hf2 | lia | intros w Hw; eapply rng_mono; [|apply Hc; exact Hw]; lia].
     destruct E2 as (L2 & R2 & F2). repeat split; [lia | | constructor; [reflexivity | exact F2]].
     cbn [flat_map]. apply rng_app. split; [|exact R2].
     unfold reset_oids in *. cbn. apply rng_cons in R1. destruct R1 as [Ro R1]. apply rng_app in R1. destruct R1 as [Rv Rt].
@@ -315,7 +327,7 @@ Lemma c_parent_set_parent p c : c_parent (c_set_parent p c) = p.
 Proof. destruct c; reflexivity. Qed.
 
 Lemma clone_comp_fresh fx lo c : forall s c' s',
-  fx_isrc fx = true -> st_ok lo s -> lo <= nx s -> clone_comp fx s c = (c', s') ->
+  noi fx (comp_isrcs c) -> st_ok lo s -> lo <= nx s -> clone_comp fx s c = (c', s') ->
   st_ok lo s' /\ nx s < nx s' /\ rng lo (nx s') (comp_oids c') /\ c_parent c' = None /\ c_oid c' = nx s.
 Proof.
   induction c as [o p id name encid math imp impref vars resets kids IH] using component_ind'.
@@ -324,26 +336,28 @@ Proof.
   destruct (clone_variables fx (nx s1) (nx s) vars) as [vars' n2] eqn:E2.
   destruct (clone_resets fx n2 (nx s) vars vars' resets) as [resets' n3] eqn:E3.
   destruct (clone_comps fx (st_nx n3 s1) (nx s) kids) as [kids' s4] eqn:E4. intros H. injection H as <- <-.
-  apply (clone_imp_fresh fx lo) in E1; [|exact Hfx | apply st_ok_nx; [lia | exact Hok] | cbn; lia].
+  cbn [comp_isrcs] in Hfx. apply noi_app in Hfx. destruct Hfx as [Hfi Hfx]. apply noi_app in Hfx. destruct Hfx as [Hfv Hfx].
+  apply noi_app in Hfx. destruct Hfx as [Hfr Hfk].
+  apply (clone_imp_fresh fx lo) in E1; [|exact Hfi | apply st_ok_nx; [lia | exact Hok] | cbn; lia].
   destruct E1 as (Ok1 & L1 & R1). cbn in L1.
-  apply clone_variables_fresh in E2; [|exact Hfx]. destruct E2 as (L2 & R2 & _ & _).
-  apply (clone_resets_fresh fx _ _ _ lo) in E3; [|exact Hfx | lia |].
+  apply clone_variables_fresh in E2; [|exact Hfv]. destruct E2 as (L2 & R2 & _ & _).
+  apply (clone_resets_fresh fx _ _ _ lo) in E3; [|exact Hfr | lia |].
   2:{ intros w Hw. apply (rng_mono2 (nx s1) lo n2 n2); [lia | lia|]. exact (proj2 (rng_flat_map _ _ var_oids vars') R2 w Hw). }
   destruct E3 as (L3 & R3 & _).
-  assert (K : forall l z l' z', Forall (fun c => forall s c' s', fx_isrc fx = true -> st_ok lo s -> lo <= nx s ->
+  assert (K : forall l z l' z', Forall (fun c => forall s c' s', noi fx (comp_isrcs c) -> st_ok lo s -> lo <= nx s ->
                  clone_comp fx s c = (c', s') ->
                  st_ok lo s' /\ nx s < nx s' /\ rng lo (nx s') (comp_oids c') /\ c_parent c' = None /\ c_oid c' = nx s) l ->
-             st_ok lo z -> lo <= nx z -> clone_comps fx z (nx s) l = (l', z') ->
+             noi fx (flat_map comp_isrcs l) -> st_ok lo z -> lo <= nx z -> clone_comps fx z (nx s) l = (l', z') ->
              st_ok lo z' /\ nx z <= nx z' /\ rng lo (nx z') (flat_map comp_oids l')).
-  { induction l as [|k r IHr]; intros z l' z' Hall Hz Hlz; cbn.
+  { induction l as [|k r IHr]; intros z l' z' Hall Hn Hz Hlz; cbn.
     - intros H. injection H as <- <-. repeat split; [exact Hz | lia | apply rng_nil].
     - destruct (clone_comp fx z k) as [k' z1] eqn:Ek. destruct (clone_comps fx z1 (nx s) r) as [r' z2] eqn:Er.
-      intros H. injection H as <- <-. inversion Hall as [|? ? Hk Hr']; subst.
-      apply Hk in Ek; [|exact Hfx | exact Hz | exact Hlz]. destruct Ek as (Okk & Lk & Rk & _).
-      apply IHr in Er; [|exact Hr' | exact Okk | lia]. destruct Er as (Okr & Lr & Rr).
+      intros H. injection H as <- <-. inversion Hall as [|? ? Hk Hr']; subst. cbn in Hn. apply noi_app in Hn. destruct Hn as [Hn1 Hn2].
+      apply Hk in Ek; [|exact Hn1 | exact Hz | exact Hlz]. destruct Ek as (Okk & Lk & Rk & _).
+      apply IHr in Er; [|exact Hr' | exact Hn2 | exact Okk | lia]. destruct Er as (Okr & Lr & Rr).
       repeat split; [exact Okr | lia|]. cbn. rewrite comp_oids_set_parent. apply rng_app. split; [|exact Rr].
       eapply rng_mono; [|exact Rk]. lia. }
-  apply K in E4; [|exact IH | apply st_ok_nx; [lia | exact Ok1] | cbn; lia]. destruct E4 as (Ok4 & L4 & R4). cbn in L4.
+  apply K in E4; [|exact IH | exact Hfk | apply st_ok_nx; [lia | exact Ok1] | cbn; lia]. destruct E4 as (Ok4 & L4 & R4). cbn in L4.
   repeat split; [exact Ok4 | lia|].
   cbn [comp_oids]. apply rng_cons. split; [lia|]. repeat (apply rng_app; split).
   - eapply rng_mono; [|exact R1]. lia.
@@ -415,48 +429,51 @@ Lemma units_oids_set_parent p u : units_oids (u_set_parent p u) = units_oids u.
 Proof. reflexivity. Qed.
 
 Lemma clone_units_list_fresh fx lo owner l : forall s l' s',
-  fx_isrc fx = true -> st_ok lo s -> lo <= nx s -> clone_units_list fx s owner l = (l', s') ->
+  noi fx (flat_map units_isrcs l) -> st_ok lo s -> lo <= nx s -> clone_units_list fx s owner l = (l', s') ->
   st_ok lo s' /\ nx s <= nx s' /\ rng lo (nx s') (flat_map units_oids l') /\ Forall (fun u => u_parent u = Some owner) l'.
 Proof.
   induction l as [|u r IH]; intros s l' s' Hfx Hok Hlo; cbn.
   - intros H. injection H as <- <-. repeat split; [exact Hok | lia | apply rng_nil | constructor].
   - destruct (clone_units_st fx s u) as [u' s1] eqn:E1. destruct (clone_units_list fx s1 owner r) as [r' s2] eqn:E2.
-    intros H. injection H as <- <-. apply (clone_units_st_fresh fx lo) in E1; [|assumption..].
-    destruct E1 as (Ok1 & L1 & R1 & _). apply IH in E2; [|exact Hfx | exact Ok1 | lia]. destruct E2 as (Ok2 & L2 & R2 & F2).
+    intros H. injection H as <- <-. cbn in Hfx. apply noi_app in Hfx. destruct Hfx as [Hf1 Hf2].
+    apply (clone_units_st_fresh fx lo) in E1; [|assumption..].
+    destruct E1 as (Ok1 & L1 & R1 & _). apply IH in E2; [|exact Hf2 | exact Ok1 | lia]. destruct E2 as (Ok2 & L2 & R2 & F2).
     repeat split; [exact Ok2 | lia | | constructor; [reflexivity | exact F2]].
     cbn [flat_map]. rewrite units_oids_set_parent. apply rng_app. split; [eapply rng_mono; [|exact R1]; lia | exact R2].
 Qed.
 
 Lemma clone_comps_fresh fx lo owner l : forall s l' s',
-  fx_isrc fx = true -> st_ok lo s -> lo <= nx s -> clone_comps fx s owner l = (l', s') ->
+  noi fx (flat_map comp_isrcs l) -> st_ok lo s -> lo <= nx s -> clone_comps fx s owner l = (l', s') ->
   st_ok lo s' /\ nx s <= nx s' /\ rng lo (nx s') (flat_map comp_oids l') /\ Forall (fun c => c_parent c = Some owner) l'.
 Proof.
   induction l as [|k r IH]; intros s l' s' Hfx Hok Hlo; cbn.
   - intros H. injection H as <- <-. repeat split; [exact Hok | lia | apply rng_nil | constructor].
   - destruct (clone_comp fx s k) as [k' s1] eqn:E1. destruct (clone_comps fx s1 owner r) as [r' s2] eqn:E2.
-    intros H. injection H as <- <-. apply (clone_comp_fresh fx lo) in E1; [|assumption..].
-    destruct E1 as (Ok1 & L1 & R1 & _). apply IH in E2; [|exact Hfx | exact Ok1 | lia]. destruct E2 as (Ok2 & L2 & R2 & F2).
+    intros H. injection H as <- <-. cbn in Hfx. apply noi_app in Hfx. destruct Hfx as [Hf1 Hf2].
+    apply (clone_comp_fresh fx lo) in E1; [|assumption..].
+    destruct E1 as (Ok1 & L1 & R1 & _). apply IH in E2; [|exact Hf2 | exact Ok1 | lia]. destruct E2 as (Ok2 & L2 & R2 & F2).
     repeat split; [exact Ok2 | lia | | constructor; [apply c_parent_set_parent | exact F2]].
     cbn [flat_map]. rewrite comp_oids_set_parent. apply rng_app. split; [eapply rng_mono; [|exact R1]; lia | exact R2].
 Qed.
 
 Lemma clone_component_fresh fx n c c' n' :
-  fx_isrc fx = true -> clone_component fx n c = (c', n') -> n < n' /\ rng n n' (comp_oids c') /\ c_parent c' = None.
+  noi fx (comp_isrcs c) -> clone_component fx n c = (c', n') -> n < n' /\ rng n n' (comp_oids c') /\ c_parent c' = None.
 Proof.
   intros Hfx. unfold clone_component. destruct (clone_comp fx (st0 n) c) as [c1 s1] eqn:E. intros H. injection H as <- <-.
   apply (clone_comp_fresh fx n) in E; [|exact Hfx | apply st_ok_st0 | cbn; lia]. cbn in E. tauto.
 Qed.
 
 Lemma clone_model_fresh fx ext n m m' n' :
-  fx_isrc fx = true -> clone_model fx ext n m = Some (m', n') -> n < n' /\ rng n n' (model_oids m').
+  noi fx (model_isrcs m) -> clone_model fx ext n m = Some (m', n') -> n < n' /\ rng n n' (model_oids m').
 Proof.
   intros Hfx. unfold clone_model.
   destruct (clone_units_list fx (st0 (S n)) n (m_units m)) as [us s1] eqn:E1.
   destruct (clone_comps fx s1 n (m_comps m)) as [cs s2] eqn:E2.
   destruct (record_model fx ext m) as [em|]; [|discriminate].
   destruct (apply_map _ em (Some [])) as [E|]; [|discriminate]. intros H. injection H as <- <-.
-  apply (clone_units_list_fresh fx n) in E1; [|exact Hfx | apply st_ok_st0 | cbn; lia]. destruct E1 as (Ok1 & L1 & R1 & _). cbn in L1.
-  apply (clone_comps_fresh fx n) in E2; [|exact Hfx | exact Ok1 | lia]. destruct E2 as (Ok2 & L2 & R2 & _).
+  unfold model_isrcs in Hfx. apply noi_app in Hfx. destruct Hfx as [Hf1 Hf2].
+  apply (clone_units_list_fresh fx n) in E1; [|exact Hf1 | apply st_ok_st0 | cbn; lia]. destruct E1 as (Ok1 & L1 & R1 & _). cbn in L1.
+  apply (clone_comps_fresh fx n) in E2; [|exact Hf2 | exact Ok1 | lia]. destruct E2 as (Ok2 & L2 & R2 & _).
   split; [lia|]. unfold set_eqs. apply model_oids_map_f.
   { intros v Hv. rewrite var_oids_set_eqs. exact Hv. }
   unfold fix_component_units. apply model_oids_map_f.
@@ -1980,12 +1997,12 @@ Proof.
   destruct (clone_variables fx (nx s1) (nx (st0 n)) vars) as [vars' n2] eqn:E2.
   destruct (clone_resets fx n2 (nx (st0 n)) vars vars' resets) as [resets' n3] eqn:E3.
   destruct (clone_comps fx (st_nx n3 s1) (nx (st0 n)) kids) as [kids' s4] eqn:E4. intros H. injection H as <- <-. cbn.
-  apply (clone_imp_fresh fx n) in E1; [|exact Hfx | apply st_ok_nx; [cbn; lia | apply st_ok_st0] | cbn; lia]. destruct E1 as (Ok1 & L1 & _). cbn in L1.
-  pose proof E2 as E2'. apply clone_variables_fresh in E2; [|exact Hfx]. destruct E2 as (L2 & R2 & _ & F2).
-  apply (clone_resets_fresh fx _ _ _ n) in E3; [|exact Hfx | lia |].
+  apply (clone_imp_fresh fx n) in E1; [|apply noi_fixed; exact Hfx | apply st_ok_nx; [cbn; lia | apply st_ok_st0] | cbn; lia]. destruct E1 as (Ok1 & L1 & _). cbn in L1.
+  pose proof E2 as E2'. apply clone_variables_fresh in E2; [|apply noi_fixed; exact Hfx]. destruct E2 as (L2 & R2 & _ & F2).
+  apply (clone_resets_fresh fx _ _ _ n) in E3; [|apply noi_fixed; exact Hfx | lia |].
   2:{ intros w Hw. apply (rng_mono2 (nx s1) n n2 n2); [lia | lia|]. exact (proj2 (rng_flat_map _ _ var_oids vars') R2 w Hw). }
   destruct E3 as (L3 & _ & F3).
-  apply (clone_comps_fresh fx n) in E4; [|exact Hfx | apply st_ok_nx; [lia | exact Ok1] | cbn; lia]. destruct E4 as (_ & _ & _ & F4).
+  apply (clone_comps_fresh fx n) in E4; [|apply noi_fixed; exact Hfx | apply st_ok_nx; [lia | exact Ok1] | cbn; lia]. destruct E4 as (_ & _ & _ & F4).
   repeat split; [|exact F3 | exact F4]. revert F2. apply Forall_impl. intros v [H _]. exact H.
 Qed.
 
